@@ -67,7 +67,7 @@ def build_harness():
     return out, time.time() - t0
 
 
-def run_vh(cmd, inp, timeout=900, tag='job'):
+def run_vh(cmd, inp, timeout=600, tag='job'):
     """Run a harness command on a JSON job; returns the parsed result."""
     vh = os.path.join(WORK, 'bin', 'vh')
     d = os.path.join(WORK, 'jobs')
